@@ -271,6 +271,12 @@ def items(tier, seed):
               job_open={'dur': [0, 2, 3], 'cdelay': [1]},
               top_open={'k': ['nest'], 'critical': [True]}, nest_open=chain,
               bound=2, kind='mon')
+    yield from spaces.mk(['nest20', 'nest30'], force='none',
+                         job_open={'dur': [0, 2]},
+                         top_open={'k': ['nest'], 'window': [1]},
+                         nest_open={'critical': [True], 'timeout': [1],
+                                    'window': [1]},
+                         k=2 if th else 1, bound=2, kind='mon')
     yield from spaces.mk(['nest21', 'nest22'], k=2, **ej)
     yield from spaces.mk(['nest32'], k=1 if th else 0, **ej)
     rich = dict(force='none',
